@@ -61,9 +61,11 @@ class RawModel(abc.ABC):
         ...
 
     def detach(self) -> list['RawTokenModel']:
-        if not self.token_store:
+        if self.token_store is None:
             return []
+        # An empty store means the tokens were already handed out: the node lives elsewhere (or nowhere) by now.
         if (
+                not self.token_store or
                 self.first_token is not self.token_store.get_first() or
                 self.last_token is not self.token_store.get_last()):
             raise ValueError('Cannot reuse node. Consider making a copy.')
